@@ -122,17 +122,22 @@ async def _scenario(loop: Any, hist: dict) -> dict:
                 # a detached ether for B: it must learn from the snapshot only
                 eth_b = stack.Ether(loop)
                 name = f"sim://b{i}"
+                # a slow host (a Raspberry Pi restoring a big cache): processing each loop turn takes real time, so replaying the snapshot
+                # takes seconds although nothing ever waits
+                loop.iter_cost = hist.get("slow_host") or 0.0
                 try:
                     gwy_b, _ = await stack.make_gateway(eth_b, name=name, config=dict(cfg), schema={k: v for k, v in schema_a.items()},
                                                         cached_packets=dict(pkts_a))
                 except Exception as e:  # noqa: BLE001
                     pt["fresh_gateway_raised"] = f"{type(e).__name__} @ {site_of(e)}: {e}"[:300]
                     res["points"].append(pt)
+                    loop.iter_cost = 0.0
                     eth_b.close()
                     vclock.STATE.frozen = None
                     continue
                 gateways.append(gwy_b)
                 await vclock.quiesce()
+                loop.iter_cost = 0.0
                 schema_b, pkts_b = gwy_b.get_state(include_expired=inc)
                 pkts_b = strip_own(pkts_b)
                 pt["pkts_equal"] = pkts_b == strip_own(pkts_a)
@@ -147,8 +152,13 @@ async def _scenario(loop: Any, hist: dict) -> dict:
                 if not pt["schema_equal"]:
                     pt["schemas"] = (jdump(shrink_schema(schema_a))[:400], jdump(shrink_schema(schema_b))[:400])
                 # restore the same snapshot a second time into B
-                await gwy_b._restore_cached_packets(dict(pkts_a))
+                loop.iter_cost = hist.get("slow_host") or 0.0
+                try:
+                    await gwy_b._restore_cached_packets(dict(pkts_a))
+                except Exception as e:  # noqa: BLE001
+                    pt["second_restore_raised"] = f"{type(e).__name__} @ {site_of(e)}: {e}"[:300]
                 await vclock.quiesce()
+                loop.iter_cost = 0.0
                 _, pkts_b2 = gwy_b.get_state(include_expired=inc)
                 pt["second_restore_same"] = live_only(strip_own(pkts_b2), gwy_a) == live_only(pkts_b, gwy_a)
                 # restore into the gateway that already holds that state
@@ -220,7 +230,9 @@ def judge(hist: dict, res: dict) -> list[tuple[dict, str]]:
                 f"at {at} (include_expired={pt['include_expired']}): {d}")
         if not hist.get("eavesdrop") and not pt["schema_equal"]:
             add({"clause": "schema-differs-after-restore"}, f"at {at}: {pt['schemas'][0]} vs {pt['schemas'][1]}")
-        if not pt["second_restore_same"]:
+        if "second_restore_raised" in pt:
+            add({"clause": "second-restore-raises", "what": pt["second_restore_raised"].split(":")[0]}, f"at {at}: {pt['second_restore_raised']}")
+        elif not pt["second_restore_same"]:
             add({"clause": "second-restore-changes-state"}, f"at {at}")
         if "empty_restore_raised" in pt:
             add({"clause": "empty-snapshot-not-restorable", "what": pt["empty_restore_raised"].split(":")[0]}, f"at {at}: {pt['empty_restore_raised']}")
@@ -361,14 +373,15 @@ def explore(job: dict) -> dict:
         return {"frames": h["frames"], "system": h["system"], "mutations": h["mutations"], "eavesdrop": draw(st.integers(0, 2)) == 0,
                 "include_expired": draw(st.booleans()), "gap": draw(st.sampled_from((0.02, 0.5, 5.0))),
                 "pauses": {str(draw(st.integers(0, n))): draw(st.sampled_from((200.0, 400.0, 800.0, 4000.0, 8000.0))) for _ in range(draw(st.integers(0, 2)))},
-                "snap_at": sorted(draw(st.lists(st.integers(1, n), min_size=0, max_size=2))), "rnd": draw(st.integers(0, 1000))}
+                "snap_at": sorted(draw(st.lists(st.integers(1, n), min_size=0, max_size=2))), "rnd": draw(st.integers(0, 1000)),
+                "slow_host": draw(st.sampled_from((0.0, 0.0, 0.0, 0.004, 0.02)))}
 
     def body(hist: dict) -> None:
         res, loop = vclock.run(_scenario, hist)
         big = any(p.get("n_pkts", 0) >= 20 and p.get("n_devs", 0) >= 3 for p in res["points"])
         col.case(nt=jdump(hist) if big else None,
                  classes=["state", "eavesdrop:on" if hist["eavesdrop"] else "eavesdrop:off", f"include_expired:{hist['include_expired']}",
-                          "has-long-pause" if hist["pauses"] else "no-pause", "big-state" if big else "small-state"],
+                          "has-long-pause" if hist["pauses"] else "no-pause", "slow-host" if hist.get("slow_host") else "fast-host", "big-state" if big else "small-state"],
                  sample={"system": hist["system"], "n": len(hist["frames"]), "snap_at": hist["snap_at"], "points": [{k: p.get(k) for k in ("at", "n_pkts", "n_devs", "pkts_equal", "schema_equal")} for p in res["points"]]})
         for sig, detail in judge(hist, res):
             col.violation(sig, hist, detail)
